@@ -9,7 +9,7 @@ from .. import rfa_common as R
 from ..core import floats
 
 ID = "C07"
-MODULES = ["TWV.Properties.C07", "TWV.Tie.Funfit"]
+MODULES = ["TWV.Properties.RfaImp", "TWV.Properties.C07", "TWV.Tie.Funfit"]
 TRANSLATORS = ["t1_funfit"]
 RULE = ("metamorphic pairs/triples of <Strategy>(...).rfa() runs over all six strategies: y -> a*y+b (generic dyadic a != 0, b "
         "for non-adaptive strategies; power-of-two a and integer b on integer-valued series for the adaptive ones), "
